@@ -129,11 +129,16 @@ def p2dRounds (g : Nat) (plan : Plan) (rt : RangeType) : List (List (List (Nat Ã
   ((List.range (plan.bins / 2)).map (triPairs bs rt 2)) ::
     plan.squares.map (fun sqs => sqs.map (sqPairs bs rt))
 
+/-- `Parallel2DExecutorImpl::execute` takes its sequential branch when `executor == 0 || binStart.size() == 2`
+(no executor, or a single bin: an external executor was supplied on a one-processor machine; the second disjunct
+was added by the fix of finding F10 â€” before it, that configuration executed nothing) -/
+def runsSequential (plan : Plan) (hasExecutor : Bool) : Bool := !hasExecutor || plan.bins == 1
+
 /-- every user invocation `task.execute(i,j)` of one `Parallel2DExecutor::execute`, in the order of a
 sequential run -/
 def p2dAllPairs (g : Nat) (plan : Plan) (hasExecutor : Bool) (rt : RangeType) : List (Nat Ã— Nat) :=
-  if hasExecutor then ((p2dRounds g plan rt).map List.flatten).flatten
-  else triPairs (binStart g plan.bins) rt 1 0
+  if runsSequential plan hasExecutor then triPairs (binStart g plan.bins) rt 1 0
+  else ((p2dRounds g plan rt).map List.flatten).flatten
 
 /-- `Parallel2DExecutor(gridSize, numProcessors)`: `numProcessors = min(numProcessors, gridSize/2)`,
 no executor when that is `< 2` -/
